@@ -44,6 +44,8 @@ def run(ctx):
     tr.d4_nan(ctx, DRV)
     d3_feasible(ctx)
     t6_siblings(ctx)
+    from .common import settings_wiring
+    settings_wiring(ctx, "D1/T5-settings-wiring", SPG)
     ctx.trust("IEEE-754: every ordered comparison with a NaN operand is false")
     ctx.trust("max(lb, min(x, ub)) lies in [lb, ub] whenever lb <= ub; a convex combination of two points of a box lies in the box")
     ctx.assume("0 <= alpha (step lengths of the SPG line search are non-negative) -- not proved statically")
